@@ -65,7 +65,7 @@ def _viol(kind, detail, task, extra=None):
     sig = {"kind": kind, "driver": task["driver"], "follow": list(task["follow"]), "len_class": _lenclass(task["payload"])}
     if extra:
         sig.update(extra)
-    return {"sig": sig, "what": detail, "input": {"driver": task["driver"], "follow": list(task["follow"]), "payload": task["payload"].hex(), "seed": task.get("seed", 0)}}
+    return {"sig": sig, "what": detail, "input": {"driver": task["driver"], "follow": list(task["follow"]), "payload": task["payload"].hex(), "seed": task.get("seed", 0), "second": task["second"].hex() if task.get("second") is not None else None}}
 
 
 def _lenclass(p):
@@ -135,9 +135,28 @@ def run_case(task):
                 return None, nck
             return _viol("embed-failed", f"pack_file raised {err}", task), nck
         tracked = [f"/{names[1]}"]
+        expect = {tracked[0]: payload}
         v = check_node(mc, tracked[0], payload, task, "right after embedding")
         if v:
             return v, nck
+        if task.get("second") is not None:
+            # same source path, new content of the same length, modification time preserved: embed again
+            st = os.stat(src)
+            src.write_bytes(task["second"])
+            os.utime(src, ns=(st.st_atime_ns, st.st_mtime_ns))
+            p2 = f"/{names[1]}2"
+            try:
+                pack_file(c.mc, src, target=p2)
+            except Exception as e:
+                return _viol("embed-failed", f"second pack_file raised {type(e).__name__}: {e}", task), nck
+            tracked.append(p2)
+            expect[p2] = task["second"]
+            for t in tracked:
+                nck += 1
+                v = check_node(c.mc, t, expect[t], task, "after embedding new content from the same path")
+                if v:
+                    v["sig"]["kind"] = "reembed-" + v["sig"]["kind"]
+                    return v, nck
         for i, op in enumerate(follow):
             if op in ("B", "B2"):
                 if drv == "h5":
@@ -148,10 +167,23 @@ def run_case(task):
                 dst = f"/copy{i}"
                 c.mc.copy(tracked[0], dst)
                 tracked.append(dst)
+                expect[dst] = expect[tracked[0]]
             elif op == "move":
                 dst = f"/moved{i}"
                 c.mc.move(tracked[0], dst)
+                expect[dst] = expect.pop(tracked[0])
                 tracked[0] = dst
+            elif op == "replace":
+                # delete the node and embed different bytes at the same path
+                newp = bytes((b + 1) & 0xFF for b in expect[tracked[0]]) or b"\x01"
+                if newp == MARKER:
+                    newp = b"\x7e"
+                del c.mc[tracked[0]]
+                src.write_bytes(newp)
+                pack_file(c.mc, src, target=tracked[0])
+                expect[tracked[0]] = newp
+            elif op == "attr":
+                c.mc[tracked[0]].attrs["note"] = i
             elif op == "R":
                 c.reopen()
             elif op == "merge":
@@ -167,7 +199,7 @@ def run_case(task):
                         mm = MetadorContainer(mr)
                         for t in tracked:
                             nck += 1
-                            v = check_node(mm, t, payload, task, "in the merged container")
+                            v = check_node(mm, t, expect[t], task, "in the merged container")
                             if v:
                                 return v, nck
                     finally:
@@ -176,7 +208,7 @@ def run_case(task):
                     env.rmtree(md)
             for t in tracked:
                 nck += 1
-                v = check_node(c.mc, t, payload, task, f"after {follow[: i + 1]}")
+                v = check_node(c.mc, t, expect[t], task, f"after {follow[: i + 1]}")
                 if v:
                     return v, nck
         return None, nck
@@ -202,6 +234,20 @@ def tasks_for(tier, seed):
         for p in rep:
             for f in folr:
                 out.append({"driver": drv, "payload": p, "follow": list(f), "seed": seed})
+        # directed: replace-then-touch chains (new bytes at the same path in a later patch, then attribute-only patches)
+        chains = [["B", "replace", "B", "attr"], ["B", "replace", "B", "attr", "B", "attr", "R"], ["replace", "B", "attr", "merge"], ["B", "replace", "copy", "B", "attr"], ["B", "attr", "B", "replace", "R"]]
+        if tier != "quick":
+            chains += [list(f) for f in itertools.product(["B", "replace", "attr", "R"], repeat=4)]
+        for p in rep:
+            for f in chains:
+                out.append({"driver": drv, "payload": p, "follow": list(f), "seed": seed})
+        # the same source path embedded twice with different content of equal length and unchanged mtime
+        pairs = [(bytes([i]), bytes([i ^ 0xFF])) for i in range(256) if bytes([i]) != MARKER and bytes([i ^ 0xFF]) != MARKER]
+        pairs += [(b"\x00" * n, b"\xff" * n) for n in LENGTHS if n >= 2]
+        if drv != "h5" and tier == "quick":
+            pairs = pairs[::16]
+        for p1, p2 in pairs:
+            out.append({"driver": drv, "payload": p1, "follow": [], "seed": seed, "second": p2})
     return out
 
 
@@ -222,14 +268,15 @@ def run(tier, seed):
     P = payloads()
     cov = {
         "evaluations": len(tasks),
-        "distinct_nontrivial": len({(t["driver"], t["payload"], tuple(t["follow"])) for t in tasks if t["payload"]}),
+        "distinct_nontrivial": len({(t["driver"], t["payload"], tuple(t["follow"]), t.get("second")) for t in tasks if t["payload"]}),
         "payloads": len(P),
         "node_checks": nck,
         "exhaustive": True,
         "rule": "payloads = all 256 single bytes (incl. the IH5 deletion marker 0x7f), all 2-byte strings over {00,7f,80,ff,61}, lengths "
         f"{LENGTHS} filled with 00 / ff / a counter, NUL- and marker-variants; x drivers h5py/IH5/IH5MF x every follow-up sequence of length <= "
         + ("1 (<=2 for 12 representative payloads)" if tier == "quick" else "2 (<=3 for 12 representative payloads)")
-        + " over {boundary, copy, move, merge, reopen, second boundary}; after every step every embedded node: bytes == source, contentSize, sha256; marker on IH5 refused without effect; non-trivial = non-empty payload",
+        + " over {boundary, copy, move, merge, reopen, second boundary}; directed replace-then-touch chains (delete + embed other bytes at the same path, attribute-only patches); "
+        "re-embedding from the SAME source path with different content of equal length and preserved mtime (all single bytes, boundary lengths); after every step every embedded node: bytes == source, contentSize, sha256; marker on IH5 refused without effect; non-trivial = non-empty payload",
         "samples": [{"driver": t["driver"], "payload": t["payload"].hex()[:40], "follow": t["follow"]} for t in (tasks[3], tasks[len(tasks) // 2], tasks[-1])],
     }
     return {"level": "exploration", "coverage": cov, "violations": violations, "assumptions": ["finite payload corpus (boundary lengths, NUL-rich, high bytes, marker-like)", "libmagic MIME detection is not judged"]}
@@ -238,5 +285,5 @@ def run(tier, seed):
 def replay(data):
     worker_init()
     inp = data["input"]
-    v, _ = run_case({"driver": inp["driver"], "payload": bytes.fromhex(inp["payload"]), "follow": inp["follow"], "seed": inp.get("seed", 0)})
+    v, _ = run_case({"driver": inp["driver"], "payload": bytes.fromhex(inp["payload"]), "follow": inp["follow"], "seed": inp.get("seed", 0), "second": bytes.fromhex(inp["second"]) if inp.get("second") is not None else None})
     return v
